@@ -287,7 +287,7 @@ func exhaustive(r *Run, pr protoRun, cap int) int {
 }
 
 func runC08(r *Run, rng *rand.Rand, thorough bool) {
-	r.Rule = "routing and channel discipline on every message of every run: each type is emitted with the routing the protocol table prescribes (secret-bearing types to exactly one recipient and not broadcast, all others broadcast to the right committee), survives WireBytes/ParseWireMessage unchanged, does not contain the sender's long-term secrets (every numeric field of every outgoing message is compared, as an integer and modulo the group order, with the sender's key share before and after, its Paillier factors and exponents, its ring-Pedersen exponents and primes, the constant term of the polynomial it dealt and the shares it dealt to parties that are not recipients of the message; and every response of the range / Bob / no-small-factor proofs in the messages must be as long as the mask that hides the witness in it); copies with the broadcast flag flipped are injected before / instead of / after the genuine message and must never advance a round; WaitingFor is compared with the exact awaited set of the Lean engine (Engine for the four all-to-all protocols, Engine2 for the two resharing protocols) after every delivery; non-trivial = one engine trace"
+	r.Rule = "routing and channel discipline on every message of every run: each type is emitted with the routing the protocol table prescribes (secret-bearing types to exactly one recipient and not broadcast, all others broadcast to the right committee), survives WireBytes/ParseWireMessage unchanged, does not contain the sender's long-term secrets (every numeric field of every outgoing message is compared, as an integer and modulo the group order, with the sender's key share before and after, its Paillier factors and exponents, its ring-Pedersen exponents and primes, the constant term of the polynomial it dealt and the shares it dealt to parties that are not recipients of the message; and every response of the range / Bob / no-small-factor proofs in the messages must be as long as the mask that hides the witness in it); copies with the broadcast flag flipped are injected before / instead of / after the genuine message and must never advance a round; WaitingFor is compared with the exact awaited set of the Lean engine (Engine for the four all-to-all protocols, Engine2 for the two resharing protocols) after every delivery; resharing runs in which new members are started only after the old committee's first messages were delivered to them, with the awaited set asserted right after the late Start(); non-trivial = one engine trace"
 	runs := allToAllRuns(r, rng, thorough)
 	for pi, pr := range runs {
 		nNodes := len(pr.build(rng).Nodes)
